@@ -894,4 +894,79 @@ Proof.
   - exact Hcons.
 Qed.
 
+(* ---------- (T4') who receives it: every delivery is one step of one thread, which returns the value to its caller ---------- *)
+Lemma exec_deliv_suffix g pd : exists new, g_deliv (fst (fst (exec g pd))) = (g_deliv g ++ new)%list /\ (length new <= 1)%nat.
+Proof.
+  destruct pd as [m a mk|m a i p counted|m a i p j v|m a i p j v lf|e]; cbn [Conc.exec fst snd g_deliv].
+  - exists []. now rewrite app_nil_r; split; [|cbn; lia].
+  - exists []. now rewrite app_nil_r; split; [|cbn; lia].
+  - destruct (taken (g_state g) m i j); [|destruct (mi_more_leaves (info m))]; cbn [fst snd g_deliv].
+    + exists []. rewrite app_nil_r. split; [reflexivity|cbn; lia].
+    + exists [(m, i, j)]. split; [reflexivity|cbn; lia].
+    + exists []. rewrite app_nil_r. split; [reflexivity|cbn; lia].
+  - destruct (leaf_taken (g_leaf g) (m, i, j, lf)); [|destruct (Nat.ltb lf (mi_more_leaves (info m)))]; cbn [fst snd g_deliv].
+    + exists []. rewrite app_nil_r. split; [reflexivity|cbn; lia].
+    + exists []. rewrite app_nil_r. split; [reflexivity|cbn; lia].
+    + exists [(m, i, j)]. split; [reflexivity|cbn; lia].
+  - exists []. rewrite app_nil_r. split; [reflexivity|cbn; lia].
+Qed.
+
+Lemma astep_deliv_suffix st tid : exists new, g_deliv (fst (astep st tid)) = (g_deliv (fst st) ++ new)%list.
+Proof.
+  destruct st as [g ths]. unfold Conc.astep. destruct (nth_opt ths tid) as [th|]; [|exists []; cbn; now rewrite app_nil_r].
+  unfold Conc.tstep. destruct (t_pend th) as [pd|]; [|exists []; cbn; now rewrite app_nil_r].
+  destruct (exec_deliv_suffix g pd) as (new & Hn & _). destruct (exec g pd) as [[g' nx] l]. cbn [fst snd] in *. now exists new.
+Qed.
+
+Lemma skipn_app_exact {X} (l new : list X) : skipn (length l) (l ++ new) = new.
+Proof. induction l as [|x l IH]; cbn; [reflexivity|exact IH]. Qed.
+
+(* the receivers' log IS the delivery log: nothing is handed out except by a step of some thread, in this order *)
+Theorem deliveries_are_the_log sched : forall st,
+  g_deliv (fst (run_sched sched st)) = (g_deliv (fst st) ++ map snd (deliveries info A accepts debug_args cfg sched st))%list.
+Proof.
+  induction sched as [|tid sched IH]; intros st; cbn [Conc.run_sched fold_left Conc.deliveries map]; [now rewrite app_nil_r|].
+  fold (run_sched sched (astep st tid)). rewrite (IH (astep st tid)).
+  destruct (astep_deliv_suffix st tid) as (new & Hn). rewrite Hn, skipn_app_exact, map_app, map_map. cbn [snd].
+  rewrite map_id, app_assoc. reflexivity.
+Qed.
+
+Lemma advance_out_prefix calls : forall out, exists more, t_out (advance calls out) = (out ++ more)%list.
+Proof.
+  induction calls as [|[m a] calls IH]; intros out; cbn [Conc.advance]; [exists []; cbn; now rewrite app_nil_r|].
+  destruct (start_call m a) as [act|pd]; [|exists []; cbn; now rewrite app_nil_r].
+  destruct (IH (out ++ [act])%list) as (more & Hm). exists (act :: more). rewrite Hm, <- app_assoc. reflexivity.
+Qed.
+
+(* ... and the step that hands a value out is the step at which its thread's request returns a value (never a panic) *)
+Theorem delivering_step_returns g th m i j :
+  g_deliv (fst (fst (tstep g th))) = (g_deliv g ++ [(m, i, j)])%list ->
+  exists v more, t_out (snd (fst (tstep g th))) = (t_out th ++ ActReturn (RVTag v) :: more)%list.
+Proof.
+  unfold Conc.tstep. destruct (t_pend th) as [pd|]; cbn [fst snd].
+  2:{ intros H. exfalso. apply (f_equal (@length _)) in H. rewrite app_length in H. cbn in H. lia. }
+  assert (Hno : forall l : list (N * nat * nat), l = (l ++ [(m, i, j)])%list -> False).
+  { intros l H. apply (f_equal (@length _)) in H. rewrite app_length in H. cbn in H. lia. }
+  destruct pd as [m0 a mk|m0 a i0 p counted|m0 a i0 p j0 v|m0 a i0 p j0 v lf|e]; cbn [Conc.exec fst snd g_deliv].
+  - intros H. exfalso. exact (Hno _ H).
+  - intros H. exfalso. exact (Hno _ H).
+  - destruct (taken (g_state g) m0 i0 j0); [|destruct (mi_more_leaves (info m0))]; cbn [fst snd g_deliv]; intros H;
+      try (exfalso; exact (Hno _ H)).
+    destruct (advance_out_prefix (t_calls th) (t_out th ++ [ActReturn (RVTag v)])) as (more & Hm).
+    exists v, more. rewrite Hm, <- app_assoc. reflexivity.
+  - destruct (leaf_taken (g_leaf g) (m0, i0, j0, lf)); [|destruct (Nat.ltb lf (mi_more_leaves (info m0)))]; cbn [fst snd g_deliv]; intros H;
+      try (exfalso; exact (Hno _ H)).
+    destruct (advance_out_prefix (t_calls th) (t_out th ++ [ActReturn (RVTag v)])) as (more & Hm).
+    exists v, more. rewrite Hm, <- app_assoc. reflexivity.
+  - intros H. exfalso. exact (Hno _ H).
+Qed.
+
+(* so: each single-use value has at most ONE receiving (thread, step) over any schedule *)
+Corollary one_receiver sched callss :
+  NoDup (map snd (deliveries info A accepts debug_args cfg sched (init_glob, map (fun cs => advance cs []) callss))).
+Proof.
+  pose proof (single_use_once sched callss) as [Hnd _]. cbn zeta in Hnd.
+  rewrite (deliveries_are_the_log sched (init_glob, map (fun cs => advance cs []) callss)) in Hnd. exact Hnd.
+Qed.
+
 End Conc.
